@@ -1,7 +1,7 @@
 // C14 (framing, engine I): exhaustive input sweeps over the three real JSON-RPC framings
 // (RawStreamProto, HeaderStreamProto, PacketProto), ASan+UBSan.
 //   usage: frame_harness <family> <part> <nparts> <level> [maxseg] [log]
-//   family: roundtrip | segment | packet | len | magic | trunc | bytes | mixed | envelope | deep | big
+//   family: roundtrip | segment | packet | len | magic | trunc | bytes | mixed | envelope | deep | big | headcode
 //   level : 0 = quick bounds, 1 = thorough bounds
 //   log   : 1 = every proto runs with setLogEnable(true) + setLogLabel (records are formatted by log_fmt_stub.cpp, written nowhere)
 // Every batch of cases runs in a forked child; the case in flight is published in shared memory, so
@@ -40,7 +40,7 @@ struct Shared {
   char cls[200];                // signature prefix of the case in flight
   char text[24000];             // replay text of the case in flight
   volatile long cut[4];         // segmentation of the case in flight (-1 = unused)
-  long states, executions, calls, callbacks, viols, status_diffs, log_records;
+  long states, executions, calls, callbacks, viols, status_diffs, log_records, sends, accepted;
   int nsig; SigRec sigs[96];
   int nout; char outs[160][200];
   int nsample; char samples[4][1200];
@@ -130,7 +130,7 @@ static void run_batch(const std::function<void()> &body) {
 // the real protos, observed through their public callbacks
 enum { RAW, HDR, PKT, NPROTO };
 static const char *PN[] = {"raw-stream", "header-stream", "packet"};
-static const uint16_t kMagic = 0x3e5a;
+static uint16_t kMagic = 0x3e5a;                                  // head code of every HeaderStreamProto made from now on (the headcode family varies it)
 
 struct Msg { int kind; int id; std::string method; int errcode; Json v; };    // kind 0 = request, 1 = response
 static bool operator==(const Msg &a, const Msg &b) { return a.kind == b.kind && a.id == b.id && a.method == b.method && a.errcode == b.errcode && a.v == b.v; }
@@ -140,16 +140,21 @@ static std::string show(const Msg &m) {
 }
 static std::string show(const std::vector<Msg> &v) { std::string s = "["; for (auto &m : v) { if (s.size() > 1) s += ' '; s += show(m); } return s + "]"; }
 
+// the protos' encoder (protected virtual sendJson) is reached through a subclass, not through an access bypass
+template <class P> struct Open : P { using P::P; using P::sendJson; };
 struct Port {
-  int kind; std::unique_ptr<Proto> p; std::vector<Msg> got; std::string sent; std::vector<size_t> sent_sizes;
+  int kind; std::unique_ptr<Proto> p; std::function<void(const Json &)> send_json; std::vector<Msg> got; std::string sent; std::vector<size_t> sent_sizes;
   // wiring: bit 0 = request callback set, bit 1 = response callback set (3 = both; 0 = what Rpc::cleanup() leaves behind on a borrowed proto)
-  explicit Port(int k, int wiring = 3) : kind(k) {
-    if (k == RAW) p.reset(new RawStreamProto); else if (k == HDR) p.reset(new HeaderStreamProto(kMagic)); else p.reset(new PacketProto);
+  // connected: false = no send callback (transport not connected): every send must be a silent no-op
+  explicit Port(int k, int wiring = 3, bool connected = true) : kind(k) {
+    if (k == RAW) { auto *x = new Open<RawStreamProto>; p.reset(x); send_json = [x](const Json &j) { x->sendJson(j); }; }
+    else if (k == HDR) { auto *x = new Open<HeaderStreamProto>(kMagic); p.reset(x); send_json = [x](const Json &j) { x->sendJson(j); }; }
+    else { auto *x = new Open<PacketProto>; p.reset(x); send_json = [x](const Json &j) { x->sendJson(j); }; }
     Proto::RecvRequestCallback rq; Proto::RecvRespondCallback rs;
     if (wiring & 1) rq = [this](int id, const std::string &m, const Json &params) { got.push_back(Msg{0, id, m, 0, params}); S->callbacks++; };
     if (wiring & 2) rs = [this](int id, int ec, const Json &res) { got.push_back(Msg{1, id, "", ec, res}); S->callbacks++; };
     p->setRecvCallback(std::move(rq), std::move(rs));
-    p->setSendCallback([this](const void *d, size_t n) { sent.append((const char *)d, n); sent_sizes.push_back(n); });
+    if (connected) p->setSendCallback([this](const void *d, size_t n) { sent.append((const char *)d, n); sent_sizes.push_back(n); S->sends++; });
     if (g_log) { p->setLogEnable(true); p->setLogLabel("c14-\"%s\\"); }   // (the label is data, not a format)
   }
 };
@@ -157,19 +162,21 @@ struct Port {
 struct Spec { int kind; int id; Json v; int errcode; };   // kind 0 request(id, "m", v) ; 1 result(id, v) ; 2 error(id, errcode)
 static Msg expect_of(const Spec &s) { if (s.kind == 0) return Msg{0, s.id, "m", 0, s.v}; if (s.kind == 1) return Msg{1, s.id, "", 0, s.v}; return Msg{1, s.id, "", s.errcode, Json()}; }
 static bool send_spec(Port &pt, const Spec &s, std::string &why) {
-  try { if (s.kind == 0) pt.p->sendRequest(s.id, "m", s.v); else if (s.kind == 1) pt.p->sendResult(s.id, s.v); else pt.p->sendError(s.id, s.errcode, "e\"{"); return true; }
+  try { if (s.kind == 0 && s.v.is_null()) pt.p->sendRequest(s.id, "m"); else if (s.kind == 0) pt.p->sendRequest(s.id, "m", s.v); else if (s.kind == 1) pt.p->sendResult(s.id, s.v); else pt.p->sendError(s.id, s.errcode, "e\"{"); return true; }
   catch (const std::exception &e) { why = e.what(); return false; }
 }
 
 struct CallRes { ssize_t r = 0; bool threw = false; std::string what; };
-// one onRecvData call on an exact-size heap copy (so ASan sees any read past data_size)
+// one onRecvData call on a heap copy that ENDS exactly where the data ends (so ASan sees any read past data_size) and STARTS 0..3 bytes
+// into its block, in rotation (callers pass buffer.readableBegin(): nothing promises alignment; a misaligned wide read shows under UBSan)
 static CallRes call(Proto &p, const char *d, size_t n) {
-  CallRes c; char *exact = new char[n]; if (n) memcpy(exact, d, n);
+  size_t k = (size_t)(S->calls & 3);
+  CallRes c; char *block = new char[n + k]; char *exact = block + k; if (n) memcpy(exact, d, n);
   S->calls++;
-  try { c.r = p.onRecvData(exact, n); }
+  try { c.r = p.onRecvData(exact, n); if (c.r > 0) S->accepted++; }
   catch (const std::exception &e) { c.threw = true; c.what = std::string(typeid(e).name()) + ":" + e.what(); }
   catch (...) { c.threw = true; c.what = "non-std-exception"; }
-  delete[] exact; return c;
+  delete[] block; return c;
 }
 
 struct Feed { std::vector<Msg> msgs; ssize_t err = 0; size_t leftover = 0; bool threw = false, overrun = false; std::string what; };
@@ -267,6 +274,8 @@ static void fam_roundtrip() {
           S->states++; S->executions++;
           Feed f = feed_whole(pt, pt.sent);
           std::string rep = fmt("proto=%s bytes=\"", PN[k]) + esc(pt.sent) + "\" seg_ends=[" + std::to_string(pt.sent.size()) + "]";
+          // packet framing: one message = one packet = ONE send (a peer gets every send as a datagram of its own)
+          if (k == PKT && pt.sent_sizes.size() != 1) { add_viol("packet-encoder-wrote-one-message-in-several-sends", rep + fmt(" sends=%zu", pt.sent_sizes.size())); end_case(); continue; }
           std::string shape = shape_of(payload_of(k, pt.sent)); Msg want = expect_of(sp);
           if (f.threw) add_viol(fmt("%s-roundtrip-throws-%s", PN[k], shape.c_str()), rep + " what=" + f.what);
           else if (f.overrun) add_viol(fmt("%s-roundtrip-consumed-more-than-presented", PN[k]), rep);
@@ -386,7 +395,8 @@ static void fam_packet() {
   std::vector<Spec> pl = pool(); int P = (int)pl.size();
   run_batch([&] {
     std::vector<std::string> pk; std::vector<Msg> want;
-    for (auto &s : pl) { Port tx(PKT); std::string why; send_spec(tx, s, why); pk.push_back(tx.sent); want.push_back(expect_of(s)); }
+    for (auto &s : pl) { Port tx(PKT); std::string why; send_spec(tx, s, why); pk.push_back(tx.sent); want.push_back(expect_of(s));
+      if (tx.sent_sizes.size() != 1) add_viol("packet-encoder-wrote-one-message-in-several-sends", "proto=packet bytes=\"" + esc(tx.sent) + fmt("\" sends=%zu", tx.sent_sizes.size())); }
     long n = 0;
     for (int len = 1; len <= 3; len++) {
       int tot = 1; for (int i = 0; i < len; i++) tot *= P;
@@ -643,7 +653,7 @@ static void fam_envelope() {
           if (!next_case()) continue;
           Json top = batch ? Json::array({js, 1, Json::array({js})}) : js;
           Port &pt = rx[k]; pt.sent.clear();
-          pt.p->sendJson(top);                                  // the proto's own encoder (protected, reachable)
+          pt.send_json(top);                                    // the proto's own encoder
           std::string cls = fmt("%s-hostile-envelope", PN[k]); std::string rep = fmt("proto=%s bytes=\"", PN[k]) + esc(pt.sent) + fmt("\" seg_ends=[%zu]", pt.sent.size());
           set_case(cls, rep); S->states++;
           CallRes cr;
@@ -667,7 +677,7 @@ static void fam_envelope() {
             // ... and it is treated exactly like a non-integer id of the same message: same callbacks (none for a result), same verdict
             if (!bad && js.contains("id") && js["id"].is_number_integer() && !int_in_range(js["id"])) {
               Json js2 = js; js2["id"] = 1.5; Json top2 = batch ? Json::array({js2, 1, Json::array({js2})}) : js2;
-              Port &rp = refp[k]; rp.sent.clear(); rp.p->sendJson(top2); CallRes rr;
+              Port &rp = refp[k]; rp.sent.clear(); rp.send_json(top2); CallRes rr;
               std::vector<Msg> mine = pt.got;
               if (hostile_call(rp, cls, rp.sent, rr)) {
                 if ((rr.r == (ssize_t)rp.sent.size()) != (cr.r == (ssize_t)pt.sent.size()) || rp.got.size() != mine.size() || !std::equal(mine.begin(), mine.end(), rp.got.begin())) { bad = true;
@@ -749,6 +759,8 @@ static void fam_big() {
       std::string rep = fmt("proto=%s %s id=%d", PN[k], kind == 0 ? "sendRequest" : kind == 1 ? "sendResult" : "sendError(code=id)", id);
       set_case(fmt("%s-boundary-id", PN[k]), rep); S->states++; S->executions++;
       std::string why; if (!send_spec(pt, sp, why)) { add_viol(fmt("%s-encoder-throws", PN[k]), rep + " what=" + why); end_case(); continue; }
+      { Port ns(k, 3, false); if (!send_spec(ns, sp, why)) { add_viol(fmt("%s-send-without-send-callback-throws", PN[k]), rep + " what=" + why); end_case(); continue; } }
+      if (k == PKT && pt.sent_sizes.size() != 1) { add_viol("packet-encoder-wrote-one-message-in-several-sends", rep + fmt(" sends=%zu", pt.sent_sizes.size())); end_case(); continue; }
       Feed f = feed_whole(pt, pt.sent); Msg want = expect_of(sp); rep += " bytes=\"" + esc(pt.sent) + "\"";
       if (f.threw) add_viol(fmt("%s-boundary-id-throws", PN[k]), rep + " what=" + f.what);
       else if (f.err || f.overrun || f.leftover || f.msgs.size() != 1) add_viol(fmt("%s-boundary-id-own-encoding-not-decoded", PN[k]), rep + fmt(" ret=%zd leftover=%zu got=", f.err, f.leftover) + show(f.msgs));
@@ -775,6 +787,8 @@ static void fam_big() {
       Spec sp{env, 7, val, 0}; tx.sent.clear(); tx.sent_sizes.clear();
       if (!send_spec(tx, sp, why)) { add_viol(fmt("%s-encoder-throws", PN[k]), rep + " what=" + why); end_case(); return; }
       std::string frame = tx.sent; Msg want = expect_of(sp);
+      if (k == PKT && tx.sent_sizes.size() != 1) { add_viol("packet-encoder-wrote-one-message-in-several-sends", rep + fmt(" sends=%zu", tx.sent_sizes.size())); end_case(); return; }
+      { Port ns(k, 3, false); if (!send_spec(ns, sp, why)) { add_viol(fmt("%s-send-without-send-callback-throws", PN[k]), rep + " what=" + why); end_case(); return; } }
       if (frame.size() - hdr != target) { add_viol("harness-big-frame-size-miscomputed", rep + fmt(" got=%zu", frame.size() - hdr)); end_case(); return; }
       auto brief = [&](const Feed &f) { std::string o = fmt(" ret=%zd leftover=%zu threw=%d messages=%zu", f.err, f.leftover, (int)f.threw, f.msgs.size());
         if (!f.msgs.empty() && f.msgs[0].v.is_string()) o += fmt(" first_string_len=%zu", f.msgs[0].v.get_ref<const std::string &>().size()); return o; };
@@ -815,6 +829,55 @@ static void fam_big() {
   }
 }
 
+// ------------------------------------------------------------------------------------------------
+// family: head codes other than 0x3e5a (whose two bytes are both < 0x80 and differ): bytes >= 0x80, equal bytes, zero, the byte-swapped twin.
+// For every code: boundary ids x {request,result,error} round trip, every pool single and pair under every 2-segment split and chunk size,
+// and frames written with that code are refused (ret <= 0, no callback) by a proto expecting 0x3e5a and vice versa.
+static void fam_headcode() {
+  std::vector<unsigned> codes = {0x0000, 0x00ff, 0xff00, 0xffff, 0x8081, 0x5a3e, 0x7f80, 0x8000};
+  printf("@INFO headcode: header framing with head codes {"); for (unsigned c : codes) printf("0x%04x,", c); printf("}: id round trips, pool singles+pairs x 2-segment splits + chunkings, cross-code rejection against 0x3e5a, part %d/%d\n", g_part, g_nparts);
+  std::vector<Spec> pl = pool(); long n = 0;
+  for (unsigned code : codes) {
+    if ((int)(n++ % g_nparts) != g_part) continue;
+    if (expired()) return;
+    run_batch([&] {
+      kMagic = (uint16_t)code; std::string why;
+      for (int id : {1, 255, 256, 65536, -1, INT_MIN}) for (int kind = 0; kind < 3; kind++) {
+        if (!next_case()) continue;
+        Spec sp{kind, id, kind == 2 ? Json() : Json::array({id}), id}; Port pt(HDR);
+        std::string rep = fmt("proto=header-stream head_code=0x%04x %s id=%d", code, kind == 0 ? "sendRequest" : kind == 1 ? "sendResult" : "sendError", id);
+        set_case("header-stream-head-code", rep); S->states++; S->executions++;
+        if (!send_spec(pt, sp, why)) { add_viol("header-stream-encoder-throws", rep + " what=" + why); end_case(); continue; }
+        Feed f = feed_whole(pt, pt.sent); Msg want = expect_of(sp); rep += " bytes=\"" + esc(pt.sent) + "\"";
+        if (f.threw) add_viol("header-stream-head-code-throws", rep + " what=" + f.what);
+        else if (f.err || f.overrun || f.leftover || f.msgs.size() != 1 || !(f.msgs[0] == want)) add_viol("header-stream-head-code-own-encoding-not-decoded", rep + fmt(" ret=%zd leftover=%zu got=", f.err, f.leftover) + show(f.msgs));
+        else {
+          // the same bytes must be refused by a proto that expects another code, and the other way round
+          kMagic = 0x3e5a; Port other(HDR); kMagic = (uint16_t)code; CallRes c;
+          if (code != 0x3e5a && hostile_call(other, "header-stream-foreign-head-code", pt.sent, c) && (c.r > 0 || !other.got.empty())) add_viol("header-stream-wrong-magic-accepted", rep + fmt(" expecting 0x3e5a: ret=%zd", c.r));
+          Spec sp2 = sp; other.sent.clear(); send_spec(other, sp2, why);
+          if (code != 0x3e5a && hostile_call(pt, "header-stream-foreign-head-code", other.sent, c) && (c.r > 0 || !pt.got.empty())) add_viol("header-stream-wrong-magic-accepted", rep + fmt(" frame written with 0x3e5a: ret=%zd", c.r));
+          add_outcome(fmt("headcode 0x%04x id round trip + cross rejection ok", code));
+        }
+        end_case();
+      }
+      std::vector<std::vector<int>> combos; for (int a = 0; a < (int)pl.size(); a++) combos.push_back({a});
+      for (int a = 0; a < (int)pl.size(); a++) for (int b = 0; b < (int)pl.size(); b++) combos.push_back({a, b});
+      for (auto &idx : combos) {
+        if (!next_case()) continue;
+        Stream st; if (!build_stream(HDR, pl, idx, st)) { add_viol("header-stream-encoder-throws", fmt("head_code=0x%04x", code)); continue; }
+        set_case("header-stream-head-code-segmented", fmt("proto=header-stream head_code=0x%04x bytes=\"", code) + esc(st.bytes) + "\""); S->states++; S->executions++;
+        Port rx(HDR); Feed ref = feed_whole(rx, st.bytes);
+        if (ref.threw || ref.err || ref.leftover || ref.overrun || ref.msgs.size() != st.want.size() || !std::equal(ref.msgs.begin(), ref.msgs.end(), st.want.begin()))
+          add_viol("header-stream-head-code-concatenation-decodes-to-a-different-sequence", std::string(S->text) + " got=" + show(ref.msgs) + fmt(" ret=%zd leftover=%zu", ref.err, ref.leftover));
+        else { all_splits(HDR, rx, st, ref, 2, "head-code-segmented"); all_chunkings(HDR, rx, st, ref, "head-code-segmented"); add_outcome(fmt("headcode 0x%04x %zu-message stream: all 2-segment splits and chunkings equal", code, idx.size())); }
+        end_case();
+      }
+      kMagic = 0x3e5a;
+    });
+  }
+}
+
 int main(int argc, char **argv) {
   g_family = argc > 1 ? argv[1] : "roundtrip"; g_part = argc > 2 ? atoi(argv[2]) : 0; g_nparts = argc > 3 ? atoi(argv[3]) : 1; g_level = argc > 4 ? atoi(argv[4]) : 0; g_maxseg = argc > 5 ? atoi(argv[5]) : 0; g_log = argc > 6 ? atoi(argv[6]) : 0;
   const char *e = getenv("VERIF_DEADLINE_S"); g_deadline = real_now() + (e ? atof(e) : 600);
@@ -825,13 +888,17 @@ int main(int argc, char **argv) {
   std::string f = g_family;
   if (f == "roundtrip") fam_roundtrip(); else if (f == "segment") fam_segment(); else if (f == "packet") fam_packet();
   else if (f == "len") fam_len(); else if (f == "magic") fam_magic(); else if (f == "trunc") fam_trunc();
-  else if (f == "bytes") fam_bytes(); else if (f == "mixed") fam_mixed(); else if (f == "envelope") fam_envelope(); else if (f == "deep") fam_deep(); else if (f == "big") fam_big();
+  else if (f == "bytes") fam_bytes(); else if (f == "mixed") fam_mixed(); else if (f == "envelope") fam_envelope(); else if (f == "deep") fam_deep(); else if (f == "big") fam_big(); else if (f == "headcode") fam_headcode();
   else { printf("@VIOL sig=harness-unknown-family :: %s\n", f.c_str()); return 0; }
+  // the evidence claims that with log=1 every frame sent and every frame accepted was logged through the formatting sink: enforce it
+  S->log_records += g_c14_log_records;                                   // the driver's own records (header layout probe); the children added theirs
+  if (g_log && S->viols == 0 && S->log_records < S->sends + S->accepted)
+    add_viol("harness-log-records-fewer-than-sends-plus-accepted-receives", fmt("family=%s part=%d records=%ld sends=%ld accepted=%ld", g_family, g_part, S->log_records, S->sends, S->accepted));
   for (int i = 0; i < S->nsig; i++) for (int j = 0; j < 3 && j < S->sigs[i].n; j++) printf("@VIOL sig=%s :: %s  [%ld occurrence(s) of this signature in %s part %d]\n", S->sigs[i].sig, S->sigs[i].ex[j], S->sigs[i].n, g_family, g_part);
   for (int i = 0; i < S->nout; i++) printf("@OUTCOME %s\n", S->outs[i]);
   for (int i = 0; i < S->nsample; i++) printf("@SAMPLE %s\n", S->samples[i]);
   if (g_capped) printf("@CAP %s part %d/%d: deadline reached after %ld inputs / %ld executions\n", g_family, g_part, g_nparts, S->states, S->executions);
-  printf("@STAT states=%ld transitions=%ld executions=%ld onrecv_calls=%ld callbacks=%ld violations=%ld hostile_status_diffs=%ld log_records_formatted=%ld\n", S->states, S->executions, S->executions, S->calls, S->callbacks, S->viols, S->status_diffs, S->log_records);
+  printf("@STAT states=%ld transitions=%ld executions=%ld onrecv_calls=%ld callbacks=%ld violations=%ld hostile_status_diffs=%ld log_records_formatted=%ld encoder_sends=%ld accepted_receives=%ld\n", S->states, S->executions, S->executions, S->calls, S->callbacks, S->viols, S->status_diffs, S->log_records, S->sends, S->accepted);
   fflush(stdout);
   return 0;
 }
